@@ -156,6 +156,13 @@ def apply_ops(structure, ops):
             names = op.get("names")
             frac = op["frac"]
             s = rebuild(s, atom_filter=lambda ri, r, a: not ((names is None or a.name in names) and rng.random() < frac))
+        elif k == "plane-atoms-only":
+            # a fraction of the nucleotides keep, of their base, exactly the three atoms that define its plane
+            # (N9 N7 N3 of a purine, N1 C4 O2 of a pyrimidine): the smallest base that still has a centroid and a normal
+            rng = random.Random(op["seed"])
+            base = {"N1", "C2", "N3", "C4", "C5", "C6", "N7", "C8", "N9", "O6", "N6", "N2", "O2", "O4", "N4", "C7", "C5M"}
+            chosen = {ri for ri, r in enumerate(s.residues) if rng.random() < op["frac"]}
+            s = rebuild(s, atom_filter=lambda ri, r, a: not (ri in chosen and a.name in base and a.name not in (("N9", "N7", "N3") if r.one_letter_name in "AG" else ("N1", "C4", "O2"))))
         elif k == "shuffle-atoms":
             rng = random.Random(op["seed"])
 
